@@ -14,6 +14,7 @@ TRUSTED_BASE = [
     "Lean code generator and runtime for the compiled line-protocol drivers (driver, pdriver, rdriver, cdriver)",
     "harness/gen_tables.py: reflection + AST extraction of declarative tables from the current source tree into lean/Rp2/Gen/*.lean",
     "harness/gen_formulas.py: translator of the bodies of rp2's arithmetic getters, predicates and the three transaction constructors (Python AST -> Lean definitions, lean/Rp2/Gen/Formulas.lean); trusted for its attribute-to-model-field table and its rendering of RP2Decimal operators; a body of unknown shape is listed as untranslated (see coverage.translator) and tied by correspondence only",
+    "harness/gen_loops.py: translator of two loops (EntrySetIterator.__next__ -> iterNext; the replay loop of BalanceSet.__init__ -> stops / stepIn / stepIntra / stepOut / rows over insertion-ordered dictionaries, lean/Rp2/Gen/Loops.lean); trusted for its attribute-to-model-field and Account(...)-to-account-id tables and its rendering of dict.get / d[k] / RP2Decimal operators; a loop of unknown shape is listed as untranslated and tied by correspondence only",
     "correspondence harness (generators, canonicalisation, diff, shrinker, independent ODS reader): differential sampling; its input distribution is recorded in this file",
     "oracles (Python transcriptions of the theorem conclusions) are used only to find failing inputs, never to declare a property true",
     "modelled, not verified: CPython decimal/datetime/list.sort stability/dict order/heapq, dateutil.parser, prezzemolo.AVLTree, ezodf/lxml, argparse/configparser/gettext/babel, the OS and file system",
@@ -62,6 +63,12 @@ def gen_tables(scratch_dir):
             if q.returncode != 0:
                 return False, (q.stdout + q.stderr)[-3000:]
             p.stdout += q.stdout
+            # translator for two loops (EntrySetIterator.__next__, the replay loop of BalanceSet.__init__): Gen/Loops.lean
+            q2 = subprocess.run([PY, os.path.join(ROOT, "harness", "gen_loops.py"), REPO, os.path.join(LEAN, "Rp2", "Gen")],
+                                capture_output=True, text=True, env=child_env(scratch_dir), cwd=scratch_dir)
+            if q2.returncode != 0:
+                return False, (q2.stdout + q2.stderr)[-3000:]
+            p.stdout += q2.stdout
     return p.returncode == 0, (p.stdout + p.stderr)[-3000:]
 
 
